@@ -436,6 +436,59 @@ def rule_dangling_reference_members(rep, rid, idx, prefixes, floor=3):
                          (cls, par.get('name'), field)) if bad else 'bound to an object that outlives the %s' % cls.split('::')[-1], nontrivial=False)
 
 
+def format_sites(idx, prefixes):
+    """Every boost::format("literal") % a % b ... chain in functions of the given namespaces / names:
+    (function, position, literal, number of fed arguments)."""
+    out = []
+    for f in idx.all_funcs():
+        if f.body is None or f.node.get('isImplicit') or not (f.qname.startswith(tuple(prefixes)) or f.name == 'main'):
+            continue
+        parents = {}
+        for a in walk(f.body):
+            for b in children(a):
+                parents[id(b)] = a
+        for n in walk(f.body):
+            if n.get('kind') not in ('CXXConstructExpr', 'CXXTemporaryObjectExpr', 'CXXFunctionalCastExpr') or 'basic_format' not in (dqt(n) + qt(n)):
+                continue
+            lit = cast.string_lit(n)
+            if lit is None or any(x is not n and x.get('kind') in ('CXXConstructExpr', 'CXXTemporaryObjectExpr') and 'basic_format' in (dqt(x) + qt(x)) for x in walk(n)):
+                continue
+            # climb through the operator% applications
+            cnt = 0
+            x = n
+            while id(x) in parents:
+                p_ = parents[id(x)]
+                if p_.get('kind') in ('ImplicitCastExpr', 'MaterializeTemporaryExpr', 'CXXBindTemporaryExpr', 'ParenExpr', 'ExprWithCleanups', 'CXXFunctionalCastExpr'):
+                    x = p_
+                    continue
+                if p_.get('kind') == 'CXXOperatorCallExpr' and callee_of(p_)[1] == 'operator%' and call_args(p_) and any(z is x for z in walk(call_args(p_)[0])):
+                    cnt += 1
+                    x = p_
+                    continue
+                break
+            out.append((f, pos(n), lit, cnt))
+    return out
+
+
+def format_directives(lit):
+    """Number of arguments a boost::format string consumes (printf-style, %N% positional and %|spec| directives; %% is a literal)."""
+    t = lit.replace('%%', '')
+    positional = [int(m_) for m_ in re.findall(r'%(\d+)%', t)]
+    t2 = re.sub(r'%\d+%', '', t)
+    bars = re.findall(r'%\|[^|]*\|', t2)
+    t3 = re.sub(r'%\|[^|]*\|', '', t2)
+    printf = re.findall(r'%[-+ #0]*\d*(?:\.\d+)?[a-zA-Z]', t3)
+    return max(positional) if positional else len(bars) + len(printf)
+
+
+def rule_format_arity(rep, rid, idx, prefixes, tu):
+    for f, where, lit, cnt in format_sites(idx, prefixes):
+        want = format_directives(lit)
+        rep.add(rid, '%s:%s:%s' % (tu, f.qname, where.split(':')[-1]), want == cnt, where + ' ' + f.qname,
+                'format %r takes %d argument(s), %d are fed: boost::format throws %s when the text is produced' % (
+                    lit, want, cnt, 'too_few_args' if cnt < want else 'too_many_args') if want != cnt else '%d argument(s)' % cnt, nontrivial=False)
+
+
 def _vars_in(e):
     return {(x.get('referencedDecl') or {}).get('id') for x in walk(e)
             if x.get('kind') == 'DeclRefExpr' and (x.get('referencedDecl') or {}).get('kind') in ('VarDecl', 'ParmVarDecl', 'BindingDecl')}
